@@ -280,14 +280,25 @@ def run(repo, rep, tier):
             d[gx] = sz + delta
             scenarios.append(('group-exchange modulus of %s %+d' % (gx, delta), dict(base_peer, **{'kex.dh_modulus_sizes()': d}), 'Group exchange (%s) modulus sizes' % gx))
     rep.floor('drift', 'drift scenarios', len(scenarios), 40)
+
+    def policy_helper(call):
+        # self.<helper>(...) of the Policy class itself (not the error recorder, not the error renderer) is interpreted in place
+        if isinstance(call.func, ast.Attribute) and isinstance(call.func.value, ast.Name) and call.func.value.id == 'self' and call.func.attr not in ('_append_error', '_get_errors') \
+                and repo.has_func('policy', 'Policy.' + call.func.attr):
+            return repo.func('policy', 'Policy.' + call.func.attr)
+        return None
     npaths = 0
     for desc, peer, want_label in scenarios:
-        it = Interp(effect_names=('_append_error',))
+        it = Interp(effect_names=('_append_error',), resolver=policy_helper)
         try:
             finals = it.run(ev_.body, policy_env(peer))
         except Unknown as ex:
             raise AnalysisError('Policy.evaluate cannot be interpreted for scenario %r: %s' % (desc, ex))
         problem = None
+        verdicts = {fe['<return>'][0] for fe in finals if isinstance(fe.get('<return>'), tuple) and isinstance(fe['<return>'][0], bool)}
+        if len(verdicts) > 1:
+            forks = sorted({t for fe in finals for t in fe.get('<forks>', [])})
+            raise AnalysisError('Policy.evaluate: for scenario %r the verdict depends on a condition the analysis does not model: %s' % (desc, forks[:3]))
         for fe in finals:
             npaths += 1
             rep.evals()
